@@ -24,7 +24,7 @@ import sys
 
 from harness.vlib.core import Ctx, LEAN, REPO, ToolFailure
 
-MODEL_FILES = ["MypyVerif/Model/Codec.lean", "MypyVerif/Proofs/Codec.lean",
+MODEL_FILES = ["MypyVerif/Model/Codec.lean", "MypyVerif/Proofs/Codec.lean", "MypyVerif/Proofs/CodecSkip.lean",
                "MypyVerif/Gen/CodecConsts.lean", "MypyVerif/Gen/Schemas.lean"]
 
 
@@ -618,6 +618,12 @@ def k3_extract_symbol(ctx: Ctx, nodes: list[tuple[str, bytes]]) -> None:
     nodes.sort(key=lambda x: len(x[1]) > 6000)       # keep the interpreter's work bounded: small nodes first
     good = nodes[: ctx.pick(500, 6000)]
     lines, expect, meta = [], [], []
+    nrep = [0]
+
+    def rep(what: str, detail: dict) -> None:
+        nrep[0] += 1
+        if nrep[0] <= 2:
+            ctx.report({"class": "lazy-extraction-wrong"}, what, detail)
     for name, b in good:
         body = b[1:]                                   # the caller (SymbolTableNode.read) has consumed the class tag
         suffix = bytes(rng.getrandbits(8) for _ in range(rng.randint(0, 4)))
@@ -625,13 +631,12 @@ def k3_extract_symbol(ctx: Ctx, nodes: list[tuple[str, bytes]]) -> None:
             got = extract_symbol(ReadBuffer(body + suffix))
             want = f"ok {len(got)} {len(body) + len(suffix) - len(got)}"
             if got != body:
-                ctx.report({"class": "lazy-extraction-wrong"},
-                           f"extract_symbol returned {len(got)} bytes for {name}, the node occupies {len(body)}",
-                           {"symbol": name, "node_bytes": b.hex()[:4000]})
+                rep(f"extract_symbol returned {len(got)} bytes for {name}, the node occupies {len(body)}",
+                    {"symbol": name, "node_bytes": b.hex()[:4000]})
         except ValueError as e:
             want = "err"
-            ctx.report({"class": "lazy-extraction-wrong"}, f"extract_symbol cannot skip the bytes node.write() produced for {name}: {e}",
-                       {"symbol": name, "node_bytes": b.hex()[:4000]})
+            rep(f"extract_symbol cannot skip the bytes node.write() produced for {name}: {e}",
+                {"symbol": name, "node_bytes": b.hex()[:4000]})
         lines.append(f"XS 200 {(body + suffix).hex()}"); expect.append(want); meta.append(("real-node", name))
         ctx.dist("k3_node_tag", str(b[0]))
         # damaged copies: truncation, one flipped byte, one deleted byte
@@ -879,6 +884,31 @@ def explain_broken(res: dict) -> list[str]:
         if (w, f, "sorted") not in have:
             out.append(f"interface_maps_sorted: {w}{'.' + f if f else ''} is no longer written by iterating sorted(...): "
                        f"{sorted(x[2] for x in have if x[0] == w and x[1] == f)}")
+    # schemas_skippable: a class body must consist of tagged objects only (the C skipper walks it)
+    def bare(c, in_payload=False):
+        k = c[0]
+        if k in ("int", "str", "bytes", "float"):
+            return None if in_payload else k
+        if k == "field":
+            r = bare(c[2], in_payload)
+            return None if r is None else f"{c[1]}:{r}"
+        if k == "seq":
+            prev_lit = False
+            for x in c[1]:
+                r = bare(x, prev_lit)
+                if r is not None:
+                    return r
+                prev_lit = x[0] == "lit"
+            return None
+        if k == "list":
+            return None if in_payload else "list without a LIST_* tag"
+        return None
+    for k, v in res["classes"].items():
+        if v["tag"] and k != "MypyFile":
+            b = bare(v["write"])
+            if b is not None:
+                out.append(f"schemas_skippable: {k}.write emits a bare (untagged) slot {b} inside the class body: "
+                           f"extract_symbol/_skip_class cannot step over it")
     if res["uncovered"]:
         out.append(f"extraction_total: not normalised: {res['uncovered']}")
     return out
@@ -1013,11 +1043,36 @@ def replay(ctx: Ctx, path: str) -> int:
             if det.get("node", "") in w:
                 print("reproduced:", w)
         return 1 if sub.violations else 0
-    if cls in ("attribute-differs", "symbol-missing", "typeddict-key-order", "warm-output-differs") :
+    if cls == "lazy-extraction-wrong":
+        from librt.internal import ReadBuffer, extract_symbol
+        b = bytes.fromhex(det["node_bytes"])
+        try:
+            got = extract_symbol(ReadBuffer(b[1:]))
+            print(f"{det['symbol']}: node.write() produced {len(b) - 1} bytes after the tag, extract_symbol returned {len(got)}")
+            return 0 if got == b[1:] else 1
+        except ValueError as e:
+            print(f"{det['symbol']}: extract_symbol raises {e!r} on the bytes node.write() produced")
+            return 1
+    if cls == "bytes-depend-on-insertion-order":
+        from harness.c11 import corpus
+        root = os.path.join(ctx.tmp, "src")
+        os.makedirs(root, exist_ok=True)
+        files = {"c11_td": corpus.TD_MODULE, "c11_td_main": corpus.TD_MAIN, "c11_all": f"import {det['module']}\n"}
+        files.update(det.get("sources") or {})
+        for m, text in files.items():
+            with open(os.path.join(root, m + ".py"), "w") as f:
+                f.write(text)
+        ff = det.get("format", "binary") == "binary"
+        res1, _, _ = run_build(ctx, {"root": root, "files": files}, os.path.join(ctx.tmp, "cache"), ff)
+        sub = Ctx(ctx.prop, ctx.tier, body.get("seed", 0))
+        sub.findings = []
+        determinism_search(sub, {det["module"]: res1.files[det["module"]]}, ff)
+        return 1 if sub.violations else 0
+    if cls in ("attribute-differs", "symbol-missing", "typeddict-key-order", "warm-output-differs", "crash") :
         if "module" not in det and det.get("symbols"):
             det = dict(det["symbols"][0], format=det.get("format", "binary"), sources=det.get("sources"))
         if "module" not in det:
-            det = {"module": "c11_td", "symbol": "TD", "format": det.get("format", "binary")}
+            det = {"module": "c11_td", "symbol": "TD", "format": det.get("format", "binary"), "sources": det.get("sources")}
         return replay_symbol(ctx, det)
     print(json.dumps(body, indent=1)[:4000])
     return 1
